@@ -220,7 +220,9 @@ package git
 // ---------------------------------------------------------------- git.go: shallow clones are refused (C13)
 //@ func (*Repository).IsFull
 //@   pure
+//@   call 0 GitPath as gp
 //@   call 0 os.Lstat as st
+//@   call 0 os.Lstat assert gp_reached && gp1 == nil && same(arg_0, gp0)
 //@   ensures result0 ==> result1 == nil
 //@   ensures result0 ==> st_reached && st1 != nil
 //@   ensures st_reached && st1 == nil ==> !result0 && result1 == nil
@@ -235,8 +237,11 @@ package git
 // ---------------------------------------------------------------- callers of GitCommand: only read-only sub-commands (C17 clause 1)
 // The obligations of interest are `pre:git.(*Repository).GitCommand` at each
 // call site; nothing else is claimed about these functions here.
+// Where the shallow marker lives is git's business (common dir of linked
+// worktrees, GIT_DIR, ...): the path must come from `git rev-parse --git-path`.
 //@ func (*Repository).GitPath
 //@   pure
+//@   call 0 GitCommand assert len(arg_1) == 3 && arg_1[0] == "rev-parse" && arg_1[1] == "--git-path" && same(arg_1[2], relPath)
 //@ func (*Repository).ConfigStringDefault
 //@   pure
 //@ func (*Repository).ConfigBoolDefault
@@ -266,3 +271,11 @@ package git
 //@ property C17: (*Repository).GitCommand (*Repository).GetConfig (*Repository).GitPath (*Repository).ConfigStringDefault (*Repository).ConfigBoolDefault (*Repository).ConfigIntDefault (*Repository).ResolveObject (*Repository).NewObjectIter (*Repository).NewBatchObjectIter (*Repository).NewReferenceIter
 //@ property C13: structural/exec-command-sites
 //@ property C17: structural/exec-command-sites structural/gitcommand-callers structural/no-write-apis
+
+// oidHexK(o): the content key of the 40-digit hex form of an object id; it is
+// by definition what OID.String returns (hex.EncodeToString is A-STD-CONV).
+//@ spec oidHexK(o OID) Key
+//@ assumed func (OID).String
+//@   trust A-STD-CONV
+//@   pure
+//@   ensures keyof(result) == oidHexK(oid) && len(result) == 40
